@@ -29,6 +29,7 @@ SENSITIVITY = {
     "M12": ("mutants/M12.diff", "C18", ["callback-invariant", "wrong-target"], "A: unmodified query value (interp_scalar)"),
     "M13": ("mutants/M13.diff", "C18", ["callback-invariant"], "A: is_in_range is the closed-range test (NaN)"),
     "M14": ("mutants/M14.diff", "C18", ["build-invoked-on-invalid-input", "build-invariant"], "A: builder decision table, y axis of Interp2D"),
+    "M15": ("mutants/M15.diff", "C17", ["result-mismatch", "entry-point-mismatch"], "A: element-operation fault (Yf) tears a key/value memo; later query of the same value"),
     "c17a": ("seeded/c17a/patch.diff", "C17", ["result-mismatch"], "B (Miri)"),
     "c17b": ("seeded/c17b/patch.diff", "C17", ["result-mismatch"], "A"),
     "c17c": ("seeded/c17c/patch.diff", "C17", ["result-mismatch", "entry-point-mismatch", "reference-unstable"], "A"),
@@ -64,6 +65,10 @@ SENSITIVITY = {
     "r8b": ("seeded/r8b/patch.diff", "C17", ["process-history-dependence"], "A: fresh-process reference"),
     "r8c": ("seeded/r8c/patch.diff", "C18", ["wrong-target"], "A: injective callback-to-target attribution, repeated elements"),
     "r8d": ("seeded/r8d/patch.diff", "C18", ["build-invariant", "build-invoked-on-invalid-input"], "A: setter orders x decision table"),
+    "r9a": ("seeded/r9a/patch.diff", "C17", ["result-mismatch", "entry-point-mismatch"], "A: failed n-d batch (error return) then another n-d batch"),
+    "r9b": ("seeded/r9b/patch.diff", "C17", ["result-mismatch"], "B (Miri): racy row reservation of a lazily filled slope cache"),
+    "r9c": ("seeded/r9c/patch.diff", "C18", ["build-invariant", "build-invoked-on-invalid-input"], "A: builder decision table, n-d data below the declared minimum"),
+    "r9d": ("seeded/r9d/patch.diff", "C18", ["build-invariant", "build-invoked-on-invalid-input"], "A: builder decision table after a successful build (address reuse)"),
 }
 # seeded/r7d is kept but not listed: its author reads C18 as forbidding one-point axes for strategies
 # with declared minimum <= 1; the statement's parenthesis does not (see seeded/r7d/meta.json, DESIGN 14.3)
